@@ -26,8 +26,15 @@ class C03(Prop):
         "(small index geometry through the guarded hook: a file is full after ~44-60 records), rejected non-contiguous "
         "appends, delete_logs_from at cut points in every file and on file boundaries, compaction pointers, reopen; "
         "then last-index and a full read, again after a reopen. Model = specification: the list of acknowledged "
-        "entries (RNacos/Model/LogStore.lean). non-trivial = at least one append and one reopen")))
+        "entries (RNacos/Model/LogStore.lean); after cuts, compactions and reopens the catalogue of log files the real manager "
+        "has persisted (`cat`) is judged by the decidable part of the manager model's invariant (rowsOK, lastOK) and "
+        "against the specification's log. non-trivial = at least one append and one reopen")))
     trusted_base = [
+        "manager level (several files): hand model RNacos/Model/LogManager.lean of RaftLogManager with *when a file is "
+        "full* as a parameter; invariant Chain; theorems manager_{append,get,delete,pointer}_refines show its operations "
+        "equal to the list specification for every file geometry. The tie to the code is (a) the list-level "
+        "correspondence on real files and (b) the invariant's decidable part checked on the real persisted catalogue; the "
+        "model's step functions themselves are not executed against the code (rollover points are not predicted)",
         "hand model RNacos/Model/LogFile.lean of LogInnerManager (file bytes incl. index area, cursors, the data "
         "handle's position); the 1024-byte chunked readers are represented by the whole-stream parse, which C20's "
         "theorems prove equal for every chunking of a well-formed stream",
